@@ -202,3 +202,19 @@ func VP_C14_probe() {
 	pb := ParsePBConstrs(cs)
 	vpSolveCheck(pb, refs, 4)
 }
+
+// VP_KF_C14_1: concrete witness of known finding C14-cp-nontermination (runs out of fuel).
+func VP_KF_C14_1() {
+	zzvp.Fuel(3000000)
+	pbs := []PBConstr{
+		GtEq([]int{1, 2, 5, 4}, []int{1, 2, 2, 1}, 2),
+		GtEq([]int{-2, -4}, []int{1, 2}, 1),
+		GtEq([]int{-3, -4, -1, 7, -5, 6}, []int{1, 1, 2, 1, 2, 1}, 5),
+		GtEq([]int{-2, -1, 7, -4, -5, 6, 3}, []int{2, 1, 2, 1, 1, 1, 1}, 7),
+		GtEq([]int{1, 7, -5, 4, -2, -3, 6}, []int{2, 1, 2, 2, 1, 1, 1}, 5),
+	}
+	s := New(ParsePBConstrs(pbs))
+	s.CuttingPlanes = true
+	st := s.Solve()
+	zzvp.Assert(st == Sat || st == Unsat, "terminates with a verdict")
+}
